@@ -64,6 +64,29 @@ func targets(w *bx.World) []target {
 		}
 	}
 	innerPlain = append(innerPlain, append(append([]byte{}, w.Inner...), 0), append(append([]byte{}, w.Inner[:257]...), 0xff, 0xff), bytes.Repeat([]byte{0xff}, 300))
+	// well-formed inner requests whose padded origin field is unusual: all zero (the padding of the
+	// empty name, and lengths no client produces), zero except one byte, no zero at all
+	for _, n := range []int{0, 1, 2, 31, 32, 33, 63, 64, 65, 96} {
+		for _, pat := range []int{0, 1, 2, 3} {
+			f := make([]byte, n)
+			switch pat {
+			case 1:
+				if n > 0 {
+					f[0] = 'a'
+				}
+			case 2:
+				if n > 0 {
+					f[n-1] = 'a'
+				}
+			case 3:
+				for i := range f {
+					f[i] = 0xff
+				}
+			}
+			ip := append(append([]byte{}, w.Inner[:257]...), byte(n>>8), byte(n))
+			innerPlain = append(innerPlain, append(ip, f...))
+		}
+	}
 	for i, ip := range innerPlain {
 		inners = append(inners, bx.Seed{Name: fmt.Sprintf("crafted-inner-%d", i), Msg: bx.CraftT3(0, w.W3, fmt.Sprintf("inner-%d", i), ip), Plain: true})
 	}
